@@ -19,6 +19,7 @@ from rsparse import Unsupported  # noqa: E402
 units.UNITS['Disasm'] = strunits.gen_disasm
 units.UNITS['Asm'] = strunits.gen_asm
 units.UNITS['Clir'] = clunits.gen_clir
+units.UNITS['JitLogic'] = clunits.gen_jitlogic
 
 
 def main():
